@@ -63,7 +63,7 @@ impl Part for WirePart {
         "2..4 clients on a pool of 1..3 connections, transaction or session mode; histories of 3..14 steps over {statement held at the backend, release, BEGIN, COMMIT, socket drop (idle, inside a transaction, with a statement in flight), CancelRequest with a client's exact key / same pid wrong secret / wrong pid same secret / random key}; the model tracks which backend connection each client currently borrows; oracle: after each CancelRequest has been fully processed (pgcat closed the cancel socket) the backends have received exactly one CancelRequest carrying that connection's own BackendKeyData if the key is exact and the client borrows a connection, and none otherwise. Non-trivial = a cancel sent while at least two clients had work in flight, or with the key of a client that no longer holds a connection".into()
     }
     fn cases(&self, tier: Tier) -> u64 {
-        tier.pick(400, 10_000)
+        tier.pick(1_600, 20_000)
     }
     fn strategy(&self, _tier: Tier) -> BoxedStrategy<Case> {
         let variant = prop_oneof![5 => Just(Variant::Exact), 2 => Just(Variant::WrongSecret), 2 => Just(Variant::WrongPid), 1 => Just(Variant::Random)];
